@@ -10,11 +10,11 @@ ASSUMPTIONS = [
     "is a separate definition proved equal whenever no overflow occurs",
     "search theorems assume probe outcomes decided by size alone (delivered iff size <= P) and reported only "
     "for sizes handed out by next_segment_size; the predicate evaluates this discipline on the observed trace "
-    "and applies the search/ceiling checks only while it holds",
-    "ceiling theorem assumes no on_payload_delivered(n) with n above the ceiling implied by the configured "
-    "link MTU; the code also calls it with the size of payloads RECEIVED from the peer (D3, see mtu_d3 cases)",
-    "next_probe overflows u16 exactly when min_ss = max_ss = 65535, reachable only by "
-    "on_payload_delivered(n >= 65535); proved as c14_next_probe_overflow_iff, a PANIC is accepted only then",
+    "and applies the search checks only while it holds",
+    "ceiling and no-panic theorems carry NO hypothesis on the sizes reported delivered or failed (any usize, "
+    "including the sizes of payloads received from the peer); they exclude only a re-`new` with another config. "
+    "The predicate applies the ceiling check to every observation and never accepts a PANIC "
+    "(after the D3 repair afb839c: on_payload_delivered clamps to max_ss and no longer raises it)",
     "IPV4_HEADER/IPV6_HEADER/UDP_HEADER/UTP_HEADER are re-read from the compiled crate on every run; the "
     "default minimum MTUs 576/1280 are literals in src/mtu.rs and are observed through behaviour",
 ]
@@ -23,7 +23,8 @@ RULE = ("mtu_search: scripted path (delivers exactly sizes <= P) for link MTUs 0
         "ceiling+1/0/70000 and random (thorough: every P for 576/1280/1500/9000 links); "
         "mtu: random op lists over {next_segment_size, disarm, delivered n, probe_failed n, new}: structured "
         "(outcomes derived from the sizes handed out and a hidden path size P, delayed and shortened) and hostile "
-        "(arbitrary n up to 70000, 2^16 multiples, usize::MAX); non-trivial = mtu_search with at least one probe "
+        "(arbitrary n up to 70000, 2^16 multiples, usize::MAX); mtu_d3: one payload size from the peer right after "
+        "new (regression of D3, predicate c14_d3_ok: floor <= mss <= max_ss <= ceiling); non-trivial = mtu_search with at least one probe "
         "outcome, or an op list where next_segment_size handed out a probe (size > min_ss) and min_ss or max_ss "
         "moved; distinct = distinct case line")
 
@@ -152,7 +153,7 @@ def _hostile_n(rng):
     return 65536 * rng.range(1, 3) + rng.range(0, 1600)      # truncates to a small u16
 
 
-def gen_hostile(rng, L, big):
+def gen_hostile(rng, L):
     v4, mtu, cd = _cfg(rng)
     toks = []
     for _ in range(L):
@@ -162,10 +163,7 @@ def gen_hostile(rng, L, big):
         elif k < 50:
             toks.append("x")
         elif k < 72:
-            n = _hostile_n(rng)
-            if not big and n >= 65535:
-                n = n % 65535
-            toks.append(f"d{n}")
+            toks.append(f"d{_hostile_n(rng)}")
         elif k < 97:
             toks.append(f"f{_hostile_n(rng)}")
         else:
@@ -185,9 +183,13 @@ def gen(rng, tier):
     for _ in range(n):
         lines.append(gen_structured(r1, r1.range(4, 60 if tier == "quick" else 150)))
     for i in range(n):
-        lines.append(gen_hostile(r2, r2.range(1, 40 if tier == "quick" else 100), big=(i % 4 == 0)))
-    # D3 on model and implementation alike (correspondence only: no predicate on these)
+        lines.append(gen_hostile(r2, r2.range(1, 40 if tier == "quick" else 100)))
+    # regression of D3: one payload size reported by the peer right after `new`
     lines += D3_CASES
+    r3 = rng.fork("d3")
+    for _ in range(300 if tier == "quick" else 20000):
+        v4, mtu, _ = _cfg(r3)
+        lines.append(f"mtu_d3 {v4} {mtu} {_hostile_n(r3)}")
     return lines
 
 
@@ -224,7 +226,7 @@ def _parse_obs(out):
 
 
 def _discipline(line, out):
-    """(search discipline held to the end, no payload above the ceiling, saw a probe, sizes moved)
+    """(search discipline held to the end, a payload above the ceiling was fed, saw a probe, sizes moved)
     — a python mirror of the accumulator flags, used only to publish the input distribution."""
     t = line.split()
     v4, mtu = t[1] == "1", int(t[2])
@@ -239,12 +241,12 @@ def _discipline(line, out):
     pmn, pmx = lo, hi
     for tok, ob in zip(t[4:], obs):
         if tok[0] == "N":
-            search = ceil_ok = False
+            search = False
         elif tok[0] == "d":
             n = int(tok[1:])
             lo = max(lo, n)
             search = search and n <= maxsent and lo <= hi
-            ceil_ok = ceil_ok and n <= ceil
+            ceil_ok = ceil_ok and n <= ceil      # here: "no payload above the ceiling was fed"
         elif tok[0] == "f":
             n = int(tok[1:])
             hi = min(hi, n - 1)
@@ -269,6 +271,9 @@ def nontrivial(line, out):
     if t[0] == "mtu":
         _, _, probe, moved = _discipline(line, out)
         return probe and moved
+    if t[0] == "mtu_d3":
+        o = out.split()
+        return len(o) == 3 and int(t[3]) > int(o[0])      # the peer's payload is above the ceiling
     return False
 
 
@@ -282,11 +287,13 @@ def classify(line, out):
         return "mtu_search:" + ("P-in-range" if lo <= p <= hi else "P-below-floor" if p < lo else "P-above-ceiling")
     if t[0] == "mtu":
         search, ceil_ok, _, _ = _discipline(line, out)
-        return "mtu:" + ("search+ceiling-checked" if search and ceil_ok else
-                         "search-checked" if search else "ceiling-checked" if ceil_ok else "wellformedness-only")
+        return "mtu:" + ("search-discipline" if search else
+                         "hostile-payload-above-ceiling" if not ceil_ok else "hostile-other")
     if t[0] == "mtu_d3":
         o = out.split()
-        return "mtu_d3:" + ("mss-above-ceiling" if len(o) == 3 and int(o[1]) > int(o[0]) else "within-ceiling")
+        n = int(t[3])
+        return "mtu_d3:" + ("mss-above-ceiling" if len(o) == 3 and int(o[1]) > int(o[0]) else
+                            "payload-above-ceiling-capped" if len(o) == 3 and n > int(o[0]) else "payload-within-ceiling")
     return t[0]
 
 
@@ -294,7 +301,7 @@ def pred(line, out):
     t = line.split()
     if out == "BADCASE":          # malformed case line (only ever produced by the shrinker): not an evaluation
         return None
-    if t[0] in ("mtu", "mtu_search"):
+    if t[0] in ("mtu", "mtu_search", "mtu_d3"):
         return "mtu_pred " + line + " | " + out
     return None
 
@@ -304,21 +311,7 @@ COMPONENTS = [{"name": "mtu", "gen": gen, "gen_around": gen_around, "nontrivial"
 
 
 # ---------------------------------------------------------------- known findings
-def d3_demo():
-    """Runs the D3 demonstration on the REAL code: [(case, output, mss_above_ceiling)].
-    `mtu_d3 <is_ipv4> <link_mtu> <n>` = SegmentSizes::new(link_mtu); on_payload_delivered(n) as done for
-    every payload received from the peer (stream_dispatch.rs); output `<ceiling> <mss> <max_ss>`."""
-    import checklib as L
-    outs = L.run_lines(L.HARNESS, D3_CASES)
-    res = []
-    for c, o in zip(D3_CASES, outs):
-        p = o.split()
-        res.append((c, o, len(p) == 3 and int(p[1]) > int(p[0])))
-    return res
-
-
 def replay_known(kf):
-    """No-op for now: D3 (ceiling lifted by a peer payload) is reported separately and is not yet wired
-    as a known finding or a fix. To wire it: for an entry of kf['open'] naming D3, return
-    ['KNOWN-FINDING: property=C14 id=D3 ...'] when d3_demo() still shows mss above the ceiling."""
+    """Nothing to replay: D3 (ceiling lifted by a peer payload) is repaired in /repo (afb839c); the mtu_d3
+    cases and the unconditional ceiling check of c14_ok are its regression."""
     return []
